@@ -270,7 +270,11 @@ fn gen_delegation_method<'s>(
     attr: &'s EntraitTraitAttr,
     contains_async: ContainsAsync,
 ) -> DelegatingMethod<'s> {
-    let fn_sig = &trait_fn.sig();
+    // The delegating method needs an identifier for every parameter,
+    // also where the trait method declares `_`.
+    let mut fn_sig = trait_fn.sig().clone();
+    crate::signature::fix_fn_param_idents(&mut fn_sig);
+    let fn_sig = &fn_sig;
     let fn_ident = &fn_sig.ident;
     let impl_t = &generic_idents.impl_t;
 
@@ -287,6 +291,7 @@ fn gen_delegation_method<'s>(
         (Some(ImplTrait(_, impl_trait_ident)), Some(SpanOpt(Delegate::ByTrait(_), _))) => {
             DelegatingMethod {
                 trait_fn,
+                sig: fn_sig.clone(),
                 call: quote! {
                     // TODO: pass additional generic arguments(?)
                     <#impl_t::Target as #impl_trait_ident<#impl_t>>::#fn_ident(self, #(#arguments),*)
@@ -317,22 +322,29 @@ fn gen_delegation_method<'s>(
                 }
             };
 
-            DelegatingMethod { trait_fn, call }
+            DelegatingMethod {
+                trait_fn,
+                sig: fn_sig.clone(),
+                call,
+            }
         }
         (None, Some(SpanOpt(Delegate::ByRef(RefDelegate::AsRef), _))) => DelegatingMethod {
             trait_fn,
+            sig: fn_sig.clone(),
             call: quote! {
                 self.as_ref().as_ref().#fn_ident(#(#arguments),*)
             },
         },
         (None, Some(SpanOpt(Delegate::ByRef(RefDelegate::Borrow), _))) => DelegatingMethod {
             trait_fn,
+            sig: fn_sig.clone(),
             call: quote! {
                 self.as_ref().borrow().#fn_ident(#(#arguments),*)
             },
         },
         _ => DelegatingMethod {
             trait_fn,
+            sig: fn_sig.clone(),
             call: quote! {
                 self.as_ref().#fn_ident(#(#arguments),*)
             },
@@ -342,6 +354,7 @@ fn gen_delegation_method<'s>(
 
 struct DelegatingMethod<'s> {
     trait_fn: &'s TraitFn,
+    sig: syn::Signature,
     call: TokenStream,
 }
 
@@ -355,7 +368,7 @@ impl ToTokens for DelegatingMethod<'_> {
             push_tokens!(stream, attr);
         }
 
-        self.trait_fn.sig().to_tokens(stream);
+        self.sig.to_tokens(stream);
         syn::token::Brace::default().surround(stream, |stream| {
             // if self.needs_async_move && self.trait_fn.entrait_sig.associated_fut.is_some() {
             if false {
